@@ -90,6 +90,15 @@ func main() {
 				extra = append(extra, t)
 			}
 		}
+		// the wire forms a client may send for the same resources: needless or reserved percent-escapes make net/url
+		// set URL.RawPath, which the router then routes on (kept when they still match, like the variants above)
+		for _, q := range c.Reqs {
+			if r.IntN(2) == 0 {
+				if t, ok := route.Escaped(r, q); ok {
+					extra = append(extra, t)
+				}
+			}
+		}
 		c.Reqs = append(c.Reqs, extra...)
 		var prev *http.Request
 		for _, q := range c.Reqs {
@@ -108,7 +117,7 @@ func main() {
 			if tsr && !ignore {
 				continue
 			}
-			req := &http.Request{Method: q.Method, Host: q.Host, URL: &url.URL{Path: q.Path}, Header: http.Header{}}
+			req := &http.Request{Method: q.Method, Host: q.Host, URL: &url.URL{Path: q.Path, RawPath: q.RawPath}, Header: http.Header{}}
 			for i := 0; i < 5; i++ {
 				f.ServeHTTP(w, req)
 			}
@@ -174,6 +183,26 @@ func main() {
 						}
 						return nil
 					})
+				}
+				if measured%8 == 0 {
+					// handles taken on the tree that a later commit replaces, released only afterwards: a Lookup context, an
+					// iterator used for Reverse, a CloneWith copy
+					_, lc, _ := f2.Lookup(nil, req)
+					it := f2.Iter()
+					var cw fox.ContextCloser
+					if lc != nil {
+						cw = lc.CloneWith(nil, req)
+					}
+					_, _ = f2.Handle("GET", "/zz-later-commit", h2)
+					for range it.Reverse(func(y func(string) bool) { y(req.Method) }, req.Host, req.URL.Path) {
+					}
+					if cw != nil {
+						cw.Close()
+					}
+					if lc != nil {
+						lc.Close()
+					}
+					run.Count("measured_after_stale_handles_were_released", 1)
 				}
 				for i := 0; i < 5; i++ {
 					f2.ServeHTTP(w, req)
